@@ -393,6 +393,19 @@ def run_task(task, seed):
                     key = "c19.library-absent" if clf == "optional" else "c19.table"
                     _viol(res, key, f"{fname}({info[2]} with {srepr(attrs)}) -> {g}; the "
                                     f"documented table allows {sorted(allowed)}", task, case)
+                if clf in ("strict", "default", "http", "sqlstate"):
+                    # classifiers are functions of the exception object: the answer must not
+                    # depend on which classifier saw this exception (type) before
+                    try:
+                        other = default_classifier if clf != "default" else strict_classifier
+                        other(exc)
+                        g3 = fn(exc).name
+                    except Exception as e:  # noqa: BLE001
+                        g3 = f"raised {type(e).__name__}"
+                    if g3 != g:
+                        _viol(res, "c19.history-dependent",
+                              f"{fname}({info[2]} with {srepr(attrs)}) answered {g}, then {g3} "
+                              f"after another classifier had seen the same exception", task, case)
                 if clf == "strict" and not info[0] and not info[1]:
                     # renaming the class must not change the answer
                     try:
